@@ -93,6 +93,16 @@ fn payload_val(rng: &mut Rng, uid: u32, size: usize) -> Val {
         g.value()
     };
     let filler = Val::binary(&vec![(uid % 251) as u8; size]);
+    // now and then a payload nested close to the decoder's limit (valid, and must be delivered like any other)
+    let extra = if rng.chance(1, 6) {
+        let mut v = Val::int(7);
+        for _ in 0..*rng.pick(&[100usize, 200, 240]) {
+            v = Val::Tuple(vec![v]);
+        }
+        v
+    } else {
+        extra
+    };
     Val::Tuple(vec![Val::atom("uid"), Val::int(uid as i128), extra, filler])
 }
 
@@ -105,7 +115,36 @@ pub fn build_items(rng: &mut Rng, mode: Mode, n_valid: usize, with_junk: bool, s
             items.push(Item::Tick);
         }
         if with_junk && rng.chance(1, 3) {
-            let j: (&'static str, Vec<u8>) = match rng.below(9) {
+            let j: (&'static str, Vec<u8>) = match rng.below(12) {
+                9 => ("payload-nested-beyond-the-limit", {
+                    let mut b = vec![112];
+                    b.extend(ref_encode_canonical(&control_of_kind(1, 1).0).unwrap());
+                    b.push(131);
+                    for _ in 0..*rng.pick(&[257usize, 300, 2000]) {
+                        b.extend_from_slice(&[104, 1]);
+                    }
+                    b.extend_from_slice(&[97, 7]);
+                    b
+                }),
+                10 => ("payload-truncated-inside-deep-nesting", {
+                    let mut b = vec![112];
+                    b.extend(ref_encode_canonical(&control_of_kind(1, 1).0).unwrap());
+                    b.push(131);
+                    for _ in 0..20 + rng.below(220) {
+                        b.extend_from_slice(if rng.bool() { &[104, 1][..] } else { &[108, 0, 0, 0, 1][..] });
+                    }
+                    b
+                }),
+                11 => ("bad-tag-inside-nesting", {
+                    let mut b = vec![112];
+                    b.extend(ref_encode_canonical(&control_of_kind(1, 1).0).unwrap());
+                    b.push(131);
+                    for _ in 0..10 + rng.below(100) {
+                        b.extend_from_slice(&[104, 2, 97, 1]);
+                    }
+                    b.extend_from_slice(&[255, 0, 1]);
+                    b
+                }),
                 0 => ("random-bytes", {
                     let nb = 1 + rng.below(20);
                     let mut b = rng.bytes(nb);
@@ -233,7 +272,7 @@ pub struct Outcome {
 
 /// One scenario: handshake, the peer writes the frames (randomly sliced), the client reads until
 /// it saw the sentinel, the stream ended, or it ran out of patience.
-async fn scenario(epmd: &net::EpmdTable, name: &str, own_flags: u64, peer_flags: u64, stream_bytes: Vec<u8>, cuts: Vec<usize>, max_reads: usize) -> Outcome {
+pub(crate) async fn scenario(epmd: &net::EpmdTable, name: &str, own_flags: u64, peer_flags: u64, stream_bytes: Vec<u8>, cuts: Vec<usize>, max_reads: usize) -> Outcome {
     let pl = net::listen_as(epmd, name).await;
     let peer_task = tokio::spawn(async move {
         let mut peer = match pl.accept("cookie", peer_flags, 0x4242_4242).await {
@@ -288,7 +327,7 @@ async fn scenario(epmd: &net::EpmdTable, name: &str, own_flags: u64, peer_flags:
     }
 }
 
-fn frame(body: &[u8]) -> Vec<u8> {
+pub(crate) fn frame(body: &[u8]) -> Vec<u8> {
     let mut v = (body.len() as u32).to_be_bytes().to_vec();
     v.extend_from_slice(body);
     v
